@@ -19,6 +19,7 @@ type Engine struct {
 	Pkgs   []*ssa.Package
 	CS     *Contracts
 	Funcs  map[string]*ssa.Function
+	Rebound map[string]*Contract // current closure name -> contract recorded under the closure's earlier name
 	Fset   *token.FileSet
 	InitOnlyGlobals map[*ssa.Global]bool
 	GlobalInit      map[*ssa.Global]ssa.Value // constant initialisers found in init
@@ -199,6 +200,7 @@ type frame struct {
 	dbgAll  map[string][]ssa.Value
 	allocsByName map[string][]*ssa.Alloc
 	snap    map[ssa.Value][2]Term
+	parent  *frame // the frame this one is inlined into (nil for the function under verification)
 }
 
 func (fx *FX) fresh(prefix string) string {
